@@ -23,7 +23,7 @@ func init() {
 	core.Register(&core.Check{
 		ID:    "C02",
 		Level: "exploration",
-		Rule: "three streams of accepted programs executed under the recording platform with the dynamic type-conformance monitor on the verif evaluation hook: (1) generated programs with hostile values (NaN, infinities, -0, huge, fractional, negative numbers; empty and non-ASCII strings; nested composites; values through any; wrong assertions; unsafe indices; every non-graphics built-in), (2) accepted 1-3 token mutants of corpus and generated programs, (3) the corpus, (4) targeted families: == / != between any values of different dynamic types (directly and nested in []any / {}any) and typed functions ending in if/else-if/else chains with returns removed from random branches (whatever the parser accepts is run), valid programs with one rule-breaking edit from the C05 catalogue (run if the parser accepts them); with scripted input and synthetic events for handlers. " +
+		Rule: "three streams of accepted programs executed under the recording platform with the dynamic type-conformance monitor on the verif evaluation hook: (1) generated programs with hostile values (NaN, infinities, -0, huge, fractional, negative numbers; empty and non-ASCII strings; nested composites; values through any; wrong assertions; unsafe indices; every non-graphics built-in), (2) accepted 1-3 token mutants of corpus and generated programs, (3) the corpus, (4) targeted families: == / != between any values of different dynamic types (directly and nested in []any / {}any) and typed functions ending in if/else-if/else chains with returns removed from random branches (whatever the parser accepts is run), valid programs with one rule-breaking edit from the C05 catalogue (run if the parser accepts them); with scripted input and synthetic events for handlers; (5) program families written as text (unary operators on stored values, variadic built-ins with changing argument counts, concatenation with aliases alive, small global-reading functions under shadowing locals, typed-only shadowing blocks, maps grown to hundreds of keys and shrunk, maps copied by repetition, self-equality with NaN, stores into characters of nested strings) and `read` through the real `evy run` on hostile standard input (host must not crash, complete lines are returned unchanged). " +
 			"distinct = distinct accepted program texts that executed at least one evaluation step",
 		Assumptions: []string{
 			"allowed ends: normal completion, Evy panic (errors.Is ErrPanic), exit, failed tests, external stop (only the harness's yield budget raises it)",
